@@ -581,7 +581,6 @@ struct C16 : World {
     if (!(sel & 1) && !avail.empty()) {
       auto& pr = avail[(size_t)(sel >> 1) % avail.size()];
       static const vbi_wst_level lv[4] = {VBI_WST_LEVEL_1, VBI_WST_LEVEL_1p5, VBI_WST_LEVEL_2p5, VBI_WST_LEVEL_3p5};
-      if (getenv("C16_LEVEL")) level = atoi(getenv("C16_LEVEL"));
       int rows = (sel & 32) ? 1 + (sel >> 1) % 25 : 25;
       budget_begin("vbi_fetch_vt_page", 50000000);
       { SutScope ss; ok = vbi_fetch_vt_page(dec, &pg, pr.first, (sel & 16) ? VBI_ANY_SUBNO : pr.second, lv[llabs(level) % 4], rows, (sel & 8) ? TRUE : FALSE); }
